@@ -178,8 +178,11 @@ pub fn kernels(rec: &mut Recorder, rng: &mut Rng, thorough: bool, outdir: &str) 
     let mut it: u64 = 0;
     for level in 0..=3u8 {
         let pc = path_char(level);
-        for len in 0..=maxlen {
-            let reps = if len <= 130 || thorough { 3 } else { 1 };
+        // long buffers too: a kernel may switch strategy (alignment peeling, striping, prefetch) only past some length
+        let mut lens: Vec<usize> = (0..=maxlen).collect();
+        lens.extend([1023usize, 1024, 1025, 1031, 1032, 1033, 1087, 1088, 1089, 1100, 1101, 2047, 2048, 2049, 2055, 4095, 4096, 4099, 8195, 16389, 32768, 32769, 65535].iter().filter(|l| **l > maxlen));
+        for len in lens {
+            let reps = if len <= 130 || thorough || len > 1000 { 3 } else { 1 };
             for rep in 0..reps {
                 it += 1;
                 // ---- add
@@ -195,7 +198,7 @@ pub fn kernels(rec: &mut Recorder, rng: &mut Rng, thorough: bool, outdir: &str) 
                     let want: Vec<u8> = d0.iter().zip(&s0).map(|(a, b)| a ^ b).collect();
                     if out != want { rec.impl_violation(format!("add_assign path={pc} len={len}: wrong result (dest={} src={})", hex(&d0), hex(&s0))); }
                     if (gd.slack_digest(), gs.slack_digest()) != before || gs.as_ref() != &s0[..] { rec.impl_violation(format!("add_assign path={pc} len={len}: wrote outside dest")); }
-                    rec.put(&format!("krn add {pc} {} {}", hex(&d0), hex(&s0)), &hex(&out));
+                    if len <= 1200 { rec.put(&format!("krn add {pc} {} {}", hex(&d0), hex(&s0)), &hex(&out)); } else { rec.count("long_buffer_oracle_only"); }
                     rec.count(&format!("add_{pc}"));
                 }
                 // ---- mul / fma
@@ -211,7 +214,7 @@ pub fn kernels(rec: &mut Recorder, rng: &mut Rng, thorough: bool, outdir: &str) 
                     let want: Vec<u8> = d0.iter().map(|a| pmul(c, *a)).collect();
                     if out != want { rec.impl_violation(format!("mulassign_scalar path={pc} len={len} scalar={c}: wrong result (dest={})", hex(&d0))); }
                     if gd.slack_digest() != before { rec.impl_violation(format!("mulassign_scalar path={pc} len={len}: wrote outside dest")); }
-                    rec.put(&format!("krn mul {pc} {c} {}", hex(&d0)), &hex(&out));
+                    if len <= 1200 { rec.put(&format!("krn mul {pc} {c} {}", hex(&d0)), &hex(&out)); } else { rec.count("long_buffer_oracle_only"); }
                     rec.count(&format!("mul_{pc}"));
 
                     let c = if rep == 0 { (len % 253 + 2) as u8 } else { rng.range(2, 255) as u8 };
@@ -226,7 +229,7 @@ pub fn kernels(rec: &mut Recorder, rng: &mut Rng, thorough: bool, outdir: &str) 
                     let want: Vec<u8> = d0.iter().zip(&s0).map(|(a, b)| a ^ pmul(c, *b)).collect();
                     if out != want { rec.impl_violation(format!("fused_addassign_mul_scalar path={pc} len={len} scalar={c}: wrong result")); }
                     if (gd.slack_digest(), gs.slack_digest()) != before || gs.as_ref() != &s0[..] { rec.impl_violation(format!("fma path={pc} len={len}: wrote outside dest")); }
-                    rec.put(&format!("krn fma {pc} {c} {} {}", hex(&d0), hex(&s0)), &hex(&out));
+                    if len <= 1200 { rec.put(&format!("krn fma {pc} {c} {} {}", hex(&d0), hex(&s0)), &hex(&out)); } else { rec.count("long_buffer_oracle_only"); }
                     rec.count(&format!("fma_{pc}"));
                 }
                 // ---- binary fma (avx512, avx2 exact; the dispatcher's portable route for the others)
@@ -249,7 +252,7 @@ pub fn kernels(rec: &mut Recorder, rng: &mut Rng, thorough: bool, outdir: &str) 
                     if out != want { rec.impl_violation(format!("fused_addassign_mul_scalar_binary path={pc} len={len} scalar={c}: wrong result")); }
                     if gd.slack_digest() != before { rec.impl_violation(format!("fmabin path={pc} len={len}: wrote outside dest")); }
                     if vk::to_octet_vec(&bv) != bits { rec.impl_violation(format!("to_octet_vec len={len} disagrees with the documented layout")); }
-                    rec.put(&format!("krn fmabin {pc} {c} {} {len} {}", hex(&d0), list(&words)), &hex(&out));
+                    if len <= 1200 { rec.put(&format!("krn fmabin {pc} {c} {} {len} {}", hex(&d0), list(&words)), &hex(&out)); } else { rec.count("long_buffer_oracle_only"); }
                     rec.count(&format!("fmabin_{pc}{}", if exact { "" } else { "_via_octets" }));
                 }
             }
@@ -439,6 +442,39 @@ pub fn slab(rec: &mut Recorder, rng: &mut Rng, thorough: bool, outdir: &str) {
             Err(_) => rec.impl_violation(format!("a slab / Symbol helper panics on valid arguments: {count} symbols of {ss} bytes, mapping {:?}, indices {:?}, block of {} bytes at {start}, scalar {c}", order, idx, blk.len())),
         }
         rec.count("slab_helpers");
+    }
+    // copy_block_from with a source that is not a whole number of symbols: whatever it does inside the slab, a
+    // block that extends beyond the slab's last symbol must be refused (a safe function must not write there)
+    for it in 0..(if thorough { 300 } else { 60 }) {
+        let ss = rng.range(1, 40) as usize;
+        let count = rng.range(1, 6) as usize;
+        let start = rng.below(count as u64 + 1) as usize;
+        let room = (count - start) * ss;
+        let len = match it % 3 { 0 => room + rng.range(1, ss as u64) as usize, 1 => room.saturating_sub(rng.below(ss as u64) as usize), _ => rng.below((room + 2 * ss) as u64) as usize };
+        let syms: Vec<Vec<u8>> = (0..count).map(|_| rng.bytes(ss)).collect();
+        let blk = rng.bytes(len);
+        let (s2, b2) = (syms.clone(), blk.clone());
+        crate::guard::set_case(&format!("FAULT slab: copy_block_from of {len} bytes at symbol {start} into {count} symbols of {ss} bytes"));
+        let r = guarded(move || {
+            let mut slab = SymbolSlab::from_symbols(s2.iter().map(|s| raptorq::Symbol::new(s.clone())).collect(), ss);
+            slab.copy_block_from(start, &b2);
+            (0..slab.len()).flat_map(|i| slab.get(i).to_vec()).collect::<Vec<u8>>()
+        });
+        let flat: Vec<u8> = syms.concat();
+        match r {
+            Ok(_) if len > room => rec.impl_violation(format!("SymbolSlab::copy_block_from accepted a block of {len} bytes at symbol {start} of a slab of {count} symbols of {ss} bytes: {} bytes would lie beyond the slab's buffer", len - room)),
+            Ok(out) => {
+                // accepted (whole or ragged but inside): exactly the bytes start*ss .. start*ss+len are replaced
+                let mut want = flat.clone();
+                want[start * ss..start * ss + len].copy_from_slice(&blk);
+                if len % ss == 0 && out != want { rec.impl_violation(format!("SymbolSlab::copy_block_from wrote the wrong bytes: {count} symbols of {ss} bytes, {len} bytes at symbol {start}")); }
+                if out.len() != flat.len() || out[..start * ss] != flat[..start * ss] || out[start * ss + len..] != flat[start * ss + len..] {
+                    rec.impl_violation(format!("SymbolSlab::copy_block_from touched bytes outside the block: {count} symbols of {ss} bytes, {len} bytes at symbol {start}"));
+                }
+            }
+            Err(_) => {} // refusal (checked builds refuse every ragged block)
+        }
+        rec.count(if len > room { "slab_block_beyond_end" } else { "slab_block_inside" });
     }
     // zero-length symbols through the natural dispatch of every kernel
     let r = guarded(|| {
